@@ -1012,6 +1012,13 @@ def contract_scenarios():
         add('ok:plain' + sfx, ['--delim', ',', '--query', 'select a2, a1 order by a1'] + src, 'ok', stdin=sin,
             stdout=([['1', 'a'], ['2', 'b'], ['3', 'c']], ',', 'quoted'))
         add('ok:empty-input' + sfx, ['--delim', ',', '--query', 'select a2, a1'] + src, 'ok', files={'t.csv': b''}, stdin=sin, stdout=([], ',', 'quoted'))
+        # an empty query is a query that does not parse (every library entry point rejects it), not a request for interactive mode
+        add('fail:empty-query' + sfx, ['--delim', ',', '--query', ''] + src, 'fail', stdin=sin)
+        # a non-ASCII separator is fine under utf-8 (only latin-1 cannot carry it)
+        add('ok:nonascii-delim' + sfx, ['--delim', '\u2063', '--policy', 'simple', '--query', 'select a2, a1'] + src, 'ok', files={'t.csv': 'a\u2063b\nc\u2063d\n'.encode('utf-8')},
+            stdin=sin, stdout=([['b', 'a'], ['d', 'c']], '\u2063', 'simple'))
+        add('ok:cyrillic-delim' + sfx, ['--delim', '\u0436', '--policy', 'simple', '--query', 'select a2, a1'] + src, 'ok', files={'t.csv': 'a\u0436b\nc\u0436d\n'.encode('utf-8')},
+            stdin=sin, stdout=([['b', 'a'], ['d', 'c']], '\u0436', 'simple'))
     add('fail:input-missing', ['--delim', ',', '--query', 'select a1', '--input', '{D}/no_such_table.csv'], 'fail')
     add('fail:input-is-directory', ['--delim', ',', '--query', 'select a1', '--input', '{D}'], 'fail')
     # sqlite front end of the command line
